@@ -3,8 +3,8 @@
 Also hosts the case generators and the Python reference shared with C12 (same engine `tendril`)."""
 PROP = "C11"
 ENGINE = "tendril"
-LEAN_TARGETS = ["H5V.Props.C11", "H5V.Lemmas.TendrilUtf8", "H5V.Lemmas.TendrilWtf8"]
-AUDIT_IMPORTS = ["H5V.Props.C11", "H5V.Lemmas.TendrilUtf8", "H5V.Lemmas.TendrilWtf8"]
+LEAN_TARGETS = ["H5V.Props.C11", "H5V.Lemmas.TendrilUtf8", "H5V.Lemmas.TendrilWtf8", "H5V.Props.C11Wtf8"]
+AUDIT_IMPORTS = ["H5V.Props.C11", "H5V.Lemmas.TendrilUtf8", "H5V.Lemmas.TendrilWtf8", "H5V.Props.C11Wtf8"]
 THEOREMS = ["H5V.Props.C11." + t for t in [
     "C11_step_refines", "C11_run_refines", "C11_reachable_wf", "C11_independent",
     "C11_checked_pop_front", "C11_checked_pop_back", "C11_checked_subtendril", "C11_push_checked",
@@ -17,7 +17,11 @@ THEOREMS = ["H5V.Props.C11." + t for t in [
     "H5V.Lemmas.Tendril.Wtf8." + t for t in [
         "laws_wtf8_partial", "not_laws_wtf8", "wtf8Validate_iff", "wtf8_push_valid", "wtf8_fixup_trivial",
         "wtf8_suffix_exact", "wtf8_prefix_exact", "wtf8_subseq_exact", "wtf8_fixup_ok", "wtf8_join_encode"]] + [
-    "H5V.Props.C11.Laws.toFx"]
+    "H5V.Props.C11.Laws.toFx"] + ["H5V.Props.C11." + t for t in [
+    # WTF-8 (Props/C11Wtf8.lean): the refinement with the fix-up, against a spec written from the WTF-8 document
+    "lawsFx_wtf8", "C11_wtf8_fixup_agrees", "C11_step_refines_wtf8", "C11_spec_valid_wtf8", "C11_step_valid_wtf8",
+    "C11_run_refines_wtf8", "C11_wtf8_valid", "C11_independent_wtf8", "C11_no_ub_wtf8", "C11_push_checked_wtf8",
+    "C11_no_spurious_panic_wtf8", "C11_step_refines_of_laws", "C11_step_refines_fx", "C11_run_refines_fx"]]
 TRUSTED = [
     "Lean 4 kernel; axioms ⊆ {propext, Classical.choice, Quot.sound} (audited per run)",
     "hand-written model lean/H5V/Model/Tendril.lean of tendril/src/{tendril,buf32,fmt,futf,util}.rs, tied by the "
